@@ -411,7 +411,8 @@ public:
   void setCounts(std::deque<uint64_t> edgeCounts) {
     edgeOffsets = std::move(edgeCounts);
     numNodes    = edgeOffsets.size();
-    numEdges    = std::accumulate(edgeOffsets.begin(), edgeOffsets.end(), 0);
+    numEdges    = std::accumulate(edgeOffsets.begin(), edgeOffsets.end(),
+                                  uint64_t{0});
     std::cout << " NUM EDGES  : " << numEdges << "\n";
     std::partial_sum(edgeOffsets.begin(), edgeOffsets.end(),
                      edgeOffsets.begin());
